@@ -11,9 +11,9 @@ from props import _hist as H
 
 PID = "C06"
 RULE = (
-    "cases = initial F letter(6, one an int64 array) x flow letter(10: simple shear, pure shear, non-commuting generic, "
+    "cases = initial F letter(6, one an int64 array) x flow letter(11: simple shear, pure shear, non-commuting generic, "
     "generic with trace, time-dependent, position-dependent along a pathline, rigid rotation, zero, "
-    "un-normalised generic handed out as ONE stored array object, simple shear returned as int64 arrays with an int64 position) x "
+    "time-periodic with period 1/2 (equal values at the start, middle and end of whole-period updates), un-normalised generic handed out as ONE stored array object, simple shear returned as int64 arrays with an int64 position) x "
     "fabric(6) x accepted regime(5) x all points within <=1 deviation of the default over (n_grains "
     "{5,2,50}, parameter corner(4), texture(3)); inside each case ALL partitions of the span: k in "
     "{1,2,5,20} uniform updates and the 7 compositions with <=3 parts on a quarter grid, the span run "
@@ -31,7 +31,7 @@ ASSUMPTIONS = [
 BOUND = {"quick": "span of strain 1 (time 1 at unit strain rate), <=20 updates per partition, <=1 root deviation", "thorough": "span 1 and 2, <=2 root deviations"}
 
 F0_LETTERS = ["I", "shear", "stretch", "rotstretch", "generic", "shear_i64"]
-FLOW_LETTERS = ["ss_xz", "ps_xy", "gen", "gentr", "time", "pos", "rigid", "zero", "st_gen", "i64_ss"]
+FLOW_LETTERS = ["ss_xz", "ps_xy", "gen", "gentr", "time", "pos", "rigid", "zero", "st_gen", "i64_ss", "per"]
 PARTS = [("k", 1), ("k", 2), ("k", 5), ("k", 20)] + [("c", c) for c in [(1, 3), (2, 2), (3, 1), (1, 1, 2), (1, 2, 1), (2, 1, 1)]]
 AXES = {"ng": [5, 2, 50], "prm": ["default", "M200chi0.9", "M0chi0", "lam0"], "tex": ["random", "single", "aligned"]}
 ASSEMBLAGES = [("ol",), ("en",), ("ol", "en"), ("en", "ol")]
